@@ -95,7 +95,7 @@ theorem eff_accrual_bound {s s' : St} (h : Eff s s') :
       min (min (if s.produce then s.perBlock * (s.block - s.lastBlock) else 0)
                (s.supply * s.maxApr / MAX_PERCENT / BLOCKS_IN_YEAR * (s.block - s.lastBlock)))
           (s.capacity - s.accumulated) := by
-  obtain ⟨tot, cut, pb, pbo, up, down, hgen, hcut, e1, _⟩ := h
+  obtain ⟨tot, cut, inc, pb, pbo, up, down, hgen, hcut, e1, _⟩ := h
   refine ⟨by omega, ?_⟩
   rw [e1, Nat.add_sub_cancel_left]
   rcases hgen with ⟨rfl, _⟩ | ⟨_, rfl, _⟩
